@@ -5,6 +5,7 @@ import (
 	"go/token"
 	"go/types"
 	"math/big"
+	"regexp"
 	"sort"
 	"strings"
 
@@ -227,7 +228,7 @@ func promiseSite(r *core.Run, o *core.O, h *ssa.Function, isAllow, isServe, isRe
 func c09(r *core.Run) {
 	p := r.P
 	r.Explanation = "Decides on every path: RollingWindow.{offset,lastTime,win} and the window's buckets are touched only under the window's write lock; Add advances the offset before adding into the bucket at the advanced offset; the offset advance ≡ (offset+span) mod size, lastTime stays bucket-aligned (now − (now−lastTime) mod interval), span is clamped to [0,size), Reduce visits (offset+span+1) mod size onwards for size−span buckets (size−1 when the current bucket is ignored). Shedder: Allow moves the in-flight counter by exactly +1 iff it returns a promise bound to this shedder and by 0 when it returns the error, which it does only when the drop decision is true; Pass and Fail move it by exactly −1; at both integration sites the handler runs only after a successful Allow and exactly one of Pass/Fail runs on every exit incl. panic; the drop decision is (overloaded ∨ stillHot) ∧ highThru as a truth table; highThru is the conjunction of both comparisons > maxFlight; the overload test is CpuUsage ≥ threshold and stamps the overload time; stillHot implies droppedRecently ∧ Since(overload) < 1 s; maxFlight ≡ int(max(1, maxPass·windows·minRt/1000)); windows ≡ 1 s / (window/buckets), both counters use that bucket duration and ignore the current bucket; Pass feeds ceil(latency in ms) to the latency window and 1 to the pass window; maxPass/minRt reduce over the right window; the smoothed in-flight update is convex and under its spin lock."
-	r.NotDecided = "which values a reduction sees at which instant (bucket expiry over arbitrary gaps is arithmetic over the clock: only the shape of the formulas is pinned, and the two clock reads in updateOffset are treated as one); CPU sampling; fairness of the spin lock."
+	r.NotDecided = "which values a reduction sees at which instant (bucket expiry over arbitrary gaps is arithmetic over the clock: only the shape of the formulas is pinned, the clock itself is not modelled); CPU sampling; fairness of the spin lock."
 	c := newC09ctx(p)
 	need := func(o *core.O, fs ...*ssa.Function) bool {
 		ok := true
@@ -248,14 +249,19 @@ func c09(r *core.Run) {
 	add := p.Func(collPkg, "RollingWindow", "Add")
 	reduce := p.Func(collPkg, "RollingWindow", "Reduce")
 	isWinCall := func(m string) func(ssa.Instruction) bool { return core.CallTo("(*lib/collection.window)." + m) }
+	isRWMethod := func(f *ssa.Function) bool {
+		return f != nil && f.Blocks != nil && f.Parent() == nil && f.Pkg == p.Pkg(collPkg) && f.Signature.Recv() != nil &&
+			strings.HasSuffix(typeKey(f.Signature.Recv().Type()), "lib/collection.RollingWindow")
+	}
+	// span functions, by role: methods of RollingWindow returning either size or the
+	// elapsed-bucket count (clock − lastTime)/interval, the clock being read inside
+	// (timex.Since / timex.Now) or handed in as a time.Duration parameter; and thin
+	// wrappers that return the result of such a function.
+	spanFuncs := map[*ssa.Function]bool{}
+	spanBase := map[*ssa.Function]bool{}
 	isSpan := func(in ssa.Instruction) bool {
 		cc := core.AsCall(in)
-		if cc == nil {
-			return false
-		}
-		f := cc.Common().StaticCallee()
-		return f != nil && f.Pkg == p.Pkg(collPkg) && f.Signature.Recv() != nil && f.Signature.Results().Len() == 1 &&
-			len(core.Instrs(f, core.CallTo("lib/timex.Since"))) > 0 && strings.Contains(core.FuncName(f), "RollingWindow")
+		return cc != nil && cc.Common().StaticCallee() != nil && spanFuncs[cc.Common().StaticCallee()]
 	}
 	rwNames := func(v ssa.Value) string {
 		switch core.FieldAddrNameOfLoad(v) {
@@ -268,17 +274,63 @@ func c09(r *core.Run) {
 		case "RollingWindow.interval":
 			return "interval"
 		}
-		if cl, ok := v.(*ssa.Call); ok {
+		switch x := v.(type) {
+		case *ssa.Call:
 			switch {
-			case isSpan(cl):
+			case isSpan(x):
 				return "span"
-			case core.Short(core.CalleeName(cl)) == "lib/timex.Now":
+			case core.Short(core.CalleeName(x)) == "lib/timex.Now":
 				return "now"
-			case core.Short(core.CalleeName(cl)) == "lib/timex.Since" && core.IsFieldLoad(cl.Call.Args[0], "RollingWindow.lastTime"):
+			case core.Short(core.CalleeName(x)) == "lib/timex.Since" && core.IsFieldLoad(x.Call.Args[0], "RollingWindow.lastTime"):
 				return "sinceLast"
+			}
+		case *ssa.Parameter:
+			// a clock value handed to a helper of the window
+			if isRWMethod(x.Parent()) && typeKey(x.Type()) == "time.Duration" {
+				return "now"
 			}
 		}
 		return ""
+	}
+	rwAlg := &core.Alg{Name: rwNames}
+	isElapsed := func(v ssa.Value) bool {
+		g := rwAlg.Norm(v)
+		for _, w := range []string{"idiv(sinceLast, interval)", "int(idiv(sinceLast, interval))", "idiv(now - lastTime, interval)", "int(idiv(now - lastTime, interval))"} {
+			if g.Equal(core.ParsePoly(w)) {
+				return true
+			}
+		}
+		return false
+	}
+	isSize := core.FieldLoad("RollingWindow.size")
+	for round := 0; round < 3; round++ {
+		for _, f := range p.PkgFuncs(collPkg) {
+			if !isRWMethod(f) || spanFuncs[f] || f.Signature.Results().Len() != 1 || typeKey(f.Signature.Results().At(0).Type()) != "int" {
+				continue
+			}
+			rets := core.Returns(f)
+			nEl, nSz, nWrap, nOther := 0, 0, 0, 0
+			for _, ret := range rets {
+				v := core.Result(ret, 0)
+				switch {
+				case isSize(v):
+					nSz++
+				case isElapsed(v):
+					nEl++
+				case core.IsResult(v, 0, isSpan):
+					nWrap++
+				default:
+					nOther++
+				}
+			}
+			switch {
+			case nOther > 0:
+			case nEl > 0 && nWrap == 0:
+				spanFuncs[f], spanBase[f] = true, true
+			case nWrap > 0 && nEl == 0 && nSz == 0:
+				spanFuncs[f] = true
+			}
+		}
 	}
 	r.Check("D1/K4/window-guarded", "RollingWindow.{offset,lastTime,win} are read under the RollingWindow's lock and written under its write lock; the ring's add/resetBucket run under the write lock, its reduce under the lock; lock balance on every path", func(o *core.O) {
 		la := core.NewLockAnalysis(p, collPkg)
@@ -349,12 +401,11 @@ func c09(r *core.Run) {
 			}
 		}
 	})
-	r.Check("D1/K7/advance-formulas", "offset' ≡ (offset + span) mod size; lastTime' ≡ now − (now − lastTime) mod interval; span ≡ Since(lastTime)/interval clamped to size outside [0,size)", func(o *core.O) {
-		a := &core.Alg{Name: rwNames}
+	r.Check("D1/K7/advance-formulas", "offset' ≡ (offset + span) mod size; lastTime' ≡ now − (now − lastTime) mod interval; span ≡ (clock − lastTime)/interval clamped to size outside [0,size)", func(o *core.O) {
+		a := rwAlg
 		n := 0
-		var spanFn *ssa.Function
 		for _, f := range p.PkgFuncs(collPkg) {
-			if f.Parent() != nil || !strings.Contains(core.FuncName(f), "RollingWindow") {
+			if !isRWMethod(f) {
 				continue
 			}
 			for _, st := range core.StoresToField(f, "RollingWindow.offset") {
@@ -373,43 +424,124 @@ func c09(r *core.Run) {
 					o.Fail(p.InstrPos(st), "lastTime becomes %s, expected the bucket-aligned %s", got, want)
 				}
 			}
-			for _, cl := range core.Calls(f, isSpan) {
-				spanFn = cl.Common().StaticCallee()
-			}
 		}
-		if !o.Need(spanFn != nil, "the span function (elapsed buckets since lastTime)") {
+		if !o.Need(len(spanBase) > 0, "the span function (a RollingWindow method returning (clock − lastTime)/interval or size)") {
 			return
 		}
-		r.Fn(core.FuncName(spanFn))
-		elapsed := core.ParsePoly("int(idiv(sinceLast, interval))")
-		alt := core.ParsePoly("idiv(sinceLast, interval)")
-		isElapsed := func(v ssa.Value) bool {
-			g := a.Norm(v)
-			return g.Equal(elapsed) || g.Equal(alt)
-		}
-		isSize := core.FieldLoad("RollingWindow.size")
 		nonNeg := core.Cmp(token.GEQ, isElapsed, core.IsConstInt(0))
 		below := core.Cmp(token.LSS, isElapsed, isSize)
-		for _, ret := range core.Returns(spanFn) {
-			n++
-			v := core.Result(ret, 0)
-			switch {
-			case isSize(v):
-			case isElapsed(v):
-				if w := core.Requires(spanFn, core.Is(ret), nonNeg); w != nil {
-					o.Fail(p.InstrPos(ret), "span returns the raw elapsed-bucket count without the test ≥ 0")
+		for _, spanFn := range sortedFuncs(spanBase) {
+			r.Fn(core.FuncName(spanFn))
+			for _, ret := range core.Returns(spanFn) {
+				n++
+				v := core.Result(ret, 0)
+				switch {
+				case isSize(v):
+				case isElapsed(v):
+					if w := core.Requires(spanFn, core.Is(ret), nonNeg); w != nil {
+						o.Fail(p.InstrPos(ret), "span returns the raw elapsed-bucket count without the test ≥ 0")
+					}
+					if w := core.Requires(spanFn, core.Is(ret), below); w != nil {
+						o.Fail(p.InstrPos(ret), "span returns the raw elapsed-bucket count without the test < size (a gap longer than the window would index past the ring)")
+					}
 				}
-				if w := core.Requires(spanFn, core.Is(ret), below); w != nil {
-					o.Fail(p.InstrPos(ret), "span returns the raw elapsed-bucket count without the test < size (a gap longer than the window would index past the ring)")
-				}
-			default:
-				o.Fail(p.InstrPos(ret), "span returns %s: neither Since(lastTime)/interval nor size", a.Norm(v))
+			}
+			// inside [0,size) the elapsed count itself must be returned
+			inRange, _ := core.EdgesOf(spanFn, below)
+			if len(inRange) == 0 {
+				o.Fail(p.Pos(spanFn.Pos()), "span never compares the elapsed-bucket count with size")
 			}
 		}
-		// inside [0,size) the elapsed count itself must be returned
-		inRange, _ := core.EdgesOf(spanFn, below)
-		if len(inRange) == 0 {
-			o.Fail(p.Pos(spanFn.Pos()), "span never compares the elapsed-bucket count with size")
+		o.Site(n)
+	})
+	r.Check("D1/K8/single-clock-read", "in the function that re-aligns RollingWindow.lastTime, the elapsed-bucket count that advances offset and the aligned lastTime derive from one and the same clock read", func(o *core.O) {
+		isClock := core.CallTo("lib/timex.Now", "lib/timex.Since", "time.Now", "time.Since")
+		var readsInside func(g *ssa.Function, depth int) bool
+		readsInside = func(g *ssa.Function, depth int) bool {
+			if g == nil || g.Blocks == nil || depth > 3 {
+				return false
+			}
+			for _, cc := range core.Calls(g, func(in ssa.Instruction) bool { return core.AsCall(in) != nil }) {
+				if isClock(cc) {
+					return true
+				}
+				if h := cc.Common().StaticCallee(); h != nil && h.Pkg == g.Pkg && readsInside(h, depth+1) {
+					return true
+				}
+			}
+			return false
+		}
+		// clock reads a value derives from: calls of the clock, and calls of in-package
+		// functions that read the clock themselves (each such call is a read of its own)
+		clockReads := func(v ssa.Value, into map[ssa.Instruction]bool) {
+			seen := map[ssa.Value]bool{}
+			var walk func(v ssa.Value)
+			walk = func(v ssa.Value) {
+				v = core.Forward(v)
+				if v == nil || seen[v] {
+					return
+				}
+				seen[v] = true
+				if cl, ok := v.(*ssa.Call); ok {
+					if isClock(cl) {
+						into[cl] = true
+					} else if h := cl.Call.StaticCallee(); h != nil && h.Pkg == p.Pkg(collPkg) && readsInside(h, 0) {
+						into[cl] = true
+					}
+				}
+				if in, ok := v.(ssa.Instruction); ok {
+					for _, op := range in.Operands(nil) {
+						if *op != nil {
+							walk(*op)
+						}
+					}
+				}
+			}
+			walk(v)
+		}
+		n := 0
+		for _, f := range p.PkgFuncs(collPkg) {
+			if !isRWMethod(f) {
+				continue
+			}
+			var last []*ssa.Store
+			for _, st := range core.StoresToField(f, "RollingWindow.lastTime") {
+				if _, isCtor := st.Addr.(*ssa.FieldAddr).X.(*ssa.Alloc); !isCtor {
+					last = append(last, st)
+				}
+			}
+			if len(last) == 0 {
+				continue
+			}
+			r.Fn(core.FuncName(f))
+			offs := core.StoresToField(f, "RollingWindow.offset")
+			if len(offs) == 0 {
+				// the advance lives elsewhere: the link between the two is not visible in one function
+				o.Unres("%s re-aligns lastTime but the offset advance is in another function", core.FuncName(f))
+				continue
+			}
+			n += len(last) + len(offs)
+			reads := map[ssa.Instruction]bool{}
+			for _, st := range offs {
+				clockReads(st.Val, reads)
+			}
+			nOff := len(reads)
+			for _, st := range last {
+				clockReads(st.Val, reads)
+			}
+			if nOff == 0 {
+				o.Fail(p.InstrPos(offs[0]), "%s advances offset by a count that derives from no clock read", core.FuncName(f))
+				continue
+			}
+			if len(reads) != 1 {
+				var at []string
+				for in := range reads {
+					at = append(at, core.Short(core.CalleeName(in.(ssa.CallInstruction)))+" at "+p.InstrPos(in))
+				}
+				sort.Strings(at)
+				o.Fail(p.InstrPos(last[0]), "%s advances offset and re-aligns lastTime from %d different clock reads (%s): when a bucket boundary falls between them lastTime moves one interval further than offset and every older bucket stays visible one interval too long",
+					core.FuncName(f), len(reads), strings.Join(at, "; "))
+			}
 		}
 		o.Site(n)
 	})
@@ -418,7 +550,7 @@ func c09(r *core.Run) {
 			return
 		}
 		r.Fn(core.FuncName(reduce))
-		a := &core.Alg{Name: rwNames}
+		a := rwAlg
 		calls := core.Calls(reduce, isWinCall("reduce"))
 		o.Site(len(calls), core.FuncName(reduce))
 		if len(calls) == 0 {
@@ -501,7 +633,7 @@ func c09(r *core.Run) {
 					}
 				}
 			case *ssa.Phi:
-				if _, ok := countingLoop(x); ok {
+				if _, ok := countingLoopEx(x); ok {
 					return "i"
 				}
 			case *ssa.Call:
@@ -511,18 +643,26 @@ func c09(r *core.Run) {
 			}
 			return ""
 		}}
-		loopBound := func(idx ssa.Value) (core.Poly, bool) {
-			var bound core.Poly
-			found := false
+		// loopOf finds the counting loop i = init; i < bound (or <=); i++ that idx runs over and
+		// returns its start and its trip count as a normal form.
+		loopOf := func(idx ssa.Value) (init int64, trips core.Poly, ok bool) {
 			core.DependsOn(idx, func(v ssa.Value) bool {
-				if phi, ok := v.(*ssa.Phi); ok {
-					if b, ok := countingLoop(phi); ok {
-						bound, found = a.Norm(b), true
+				if phi, isPhi := v.(*ssa.Phi); isPhi {
+					if lp, isLoop := countingLoopEx(phi); isLoop {
+						init, ok = lp.init, true
+						trips = a.Norm(lp.bound).Sub(core.PInt(lp.init))
+						if lp.inclusive {
+							trips = trips.Add(core.PInt(1))
+						}
 					}
 				}
 				return false
 			})
-			return bound, found
+			return
+		}
+		shifted := func(form string, init int64) core.Poly {
+			// the formula is written for i = 0 …; a loop starting at init visits i − init
+			return core.ParsePoly(loopVarRe.ReplaceAllString(form, fmt.Sprintf("(i - %d)", init)))
 		}
 		// element address &buckets[idx] → idx
 		bucketIndex := func(v ssa.Value) ssa.Value {
@@ -552,11 +692,12 @@ func c09(r *core.Run) {
 			for _, rc := range rs {
 				n++
 				idx := core.Args(rc)[1]
-				if got, want := a.Norm(idx), core.ParsePoly("mod(offset + i + 1, size)"); !got.Equal(want) {
-					o.Fail(p.InstrPos(rc), "expiry resets bucket %s, expected %s", got, want)
+				init, trips, ok := loopOf(idx)
+				if !ok || !trips.Equal(core.ParsePoly("span")) {
+					o.Fail(p.InstrPos(rc), "the expiry loop does not reset span buckets (trip count %v)", trips)
 				}
-				if b, ok := loopBound(idx); !ok || !b.Equal(core.ParsePoly("span")) {
-					o.Fail(p.InstrPos(rc), "the expiry loop does not run for i = 0 … span−1 (bound %v)", b)
+				if got, want := a.Norm(idx), shifted("mod(offset + i + 1, size)", init); !got.Equal(want) {
+					o.Fail(p.InstrPos(rc), "expiry resets bucket %s, expected %s", got, want)
 				}
 			}
 		}
@@ -601,18 +742,21 @@ func c09(r *core.Run) {
 				o.Fail(p.InstrPos(cs[0]), "%s does not %s an element of the ring", core.FuncName(w.f), w.what)
 				continue
 			}
-			if got, want := a.Norm(idx), core.ParsePoly(w.idx); !got.Equal(want) &&
-				!got.Equal(core.ParsePoly(strings.ReplaceAll(w.idx, "wsize", "len(wbuckets)"))) {
+			init := int64(0)
+			if w.what == "visit" {
+				i0, trips, ok := loopOf(idx)
+				if !ok || !trips.Equal(core.ParsePoly("arg2")) {
+					o.Fail(p.InstrPos(cs[0]), "%s does not visit count buckets (trip count %v)", core.FuncName(w.f), trips)
+				}
+				init = i0
+			}
+			if got, want := a.Norm(idx), shifted(w.idx, init); !got.Equal(want) &&
+				!got.Equal(shifted(strings.ReplaceAll(w.idx, "wsize", "len(wbuckets)"), init)) {
 				o.Fail(p.InstrPos(cs[0]), "%s addresses bucket %s, expected %s", core.FuncName(w.f), got, want)
 			}
-			switch w.what {
-			case "add":
+			if w.what == "add" {
 				if got := a.Norm(args[1]); !got.Equal(core.ParsePoly("arg2")) {
 					o.Fail(p.InstrPos(cs[0]), "%s adds %s instead of its value argument", core.FuncName(w.f), got)
-				}
-			case "visit":
-				if b, ok := loopBound(idx); !ok || !b.Equal(core.ParsePoly("arg2")) {
-					o.Fail(p.InstrPos(cs[0]), "%s does not visit i = 0 … count−1 (bound %v)", core.FuncName(w.f), b)
 				}
 			}
 		}
@@ -1226,21 +1370,48 @@ func c09(r *core.Run) {
 					o.Fail(p.InstrPos(rc), "%s reduces over %s, expected %s", core.FuncName(rd.f), core.Describe(core.Args(rc)[0]), rd.fld)
 				}
 			}
-			for _, g := range rd.f.AnonFuncs {
+			// the reducers: the function values handed to Reduce (closure, or method value of a small accumulator type)
+			var reducers []*ssa.Function
+			for _, rc := range core.Calls(rd.f, core.CallTo(rwReduce)) {
+				switch x := core.Strip(core.Forward(core.Args(rc)[1])).(type) {
+				case *ssa.MakeClosure:
+					g := x.Fn.(*ssa.Function)
+					if g.Synthetic != "" {
+						if mo, ok := g.Object().(*types.Func); ok {
+							if m := p.SSA.FuncValue(mo); m != nil && m.Blocks != nil {
+								g = m
+							}
+						}
+					}
+					reducers = append(reducers, g)
+				case *ssa.Function:
+					reducers = append(reducers, x)
+				}
+			}
+			for _, g := range reducers {
+				r.Fn(core.FuncName(g))
+				// accumulator stores: stores through captured state (free variable, or the receiver / its fields)
 				for _, st := range core.Instrs(g, func(in ssa.Instruction) bool {
 					s, ok := in.(*ssa.Store)
 					if !ok {
 						return false
 					}
-					_, isFV := s.Addr.(*ssa.FreeVar)
-					return isFV
+					addr := s.Addr
+					if fa, isFA := addr.(*ssa.FieldAddr); isFA {
+						addr = fa.X
+					}
+					switch addr.(type) {
+					case *ssa.FreeVar, *ssa.Parameter:
+						return true
+					}
+					return false
 				}) {
 					n++
 					s := st.(*ssa.Store)
 					got := a.Norm(s.Val)
 					old := func(v ssa.Value) bool {
-						u, ok := v.(*ssa.UnOp)
-						return ok && u.Op == token.MUL && u.X == s.Addr
+						u, ok := core.Strip(v).(*ssa.UnOp)
+						return ok && u.Op == token.MUL && core.Describe(u.X) == core.Describe(s.Addr)
 					}
 					same := func(v ssa.Value) bool { return a.Norm(v).Equal(got) }
 					switch rd.shape {
@@ -1272,15 +1443,25 @@ func c09(r *core.Run) {
 	})
 }
 
-// countingLoop recognises i := 0; i < bound; i++ on the φ of i and returns the bound.
-func countingLoop(phi *ssa.Phi) (bound ssa.Value, ok bool) {
+var loopVarRe = regexp.MustCompile(`\bi\b`)
+
+// loopShape describes i := init; i < bound (or i <= bound); i++.
+type loopShape struct {
+	init      int64
+	bound     ssa.Value
+	inclusive bool
+}
+
+// countingLoopEx recognises an upward counting loop on the φ of its induction variable.
+func countingLoopEx(phi *ssa.Phi) (loopShape, bool) {
+	var lp loopShape
 	if len(phi.Edges) != 2 {
-		return nil, false
+		return lp, false
 	}
-	zero, step := false, false
+	haveInit, step := false, false
 	for _, e := range phi.Edges {
-		if z, isC := core.ConstInt(e); isC && z == 0 {
-			zero = true
+		if z, isC := core.ConstInt(e); isC {
+			lp.init, haveInit = z, true
 			continue
 		}
 		if b, isB := e.(*ssa.BinOp); isB && b.Op == token.ADD {
@@ -1292,23 +1473,44 @@ func countingLoop(phi *ssa.Phi) (bound ssa.Value, ok bool) {
 			}
 		}
 	}
-	if !zero || !step {
-		return nil, false
+	if !haveInit || !step {
+		return lp, false
 	}
 	blk := phi.Block()
 	iff, isIf := blk.Instrs[len(blk.Instrs)-1].(*ssa.If)
 	if !isIf {
-		return nil, false
+		return lp, false
 	}
 	c, isB := iff.Cond.(*ssa.BinOp)
 	if !isB {
-		return nil, false
+		return lp, false
 	}
+	// the loop continues on the true edge while i OP bound
+	op := c.Op
 	switch {
-	case c.Op == token.LSS && c.X == ssa.Value(phi):
-		return c.Y, true
-	case c.Op == token.GTR && c.Y == ssa.Value(phi):
-		return c.X, true
+	case c.X == ssa.Value(phi):
+		lp.bound = c.Y
+	case c.Y == ssa.Value(phi):
+		lp.bound = c.X
+		op = flipCmp(op)
+	default:
+		return lp, false
 	}
-	return nil, false
+	switch op {
+	case token.LSS:
+	case token.LEQ:
+		lp.inclusive = true
+	default:
+		return lp, false
+	}
+	return lp, true
+}
+
+func sortedFuncs(m map[*ssa.Function]bool) []*ssa.Function {
+	var out []*ssa.Function
+	for f := range m {
+		out = append(out, f)
+	}
+	sort.Slice(out, func(i, j int) bool { return core.FuncName(out[i]) < core.FuncName(out[j]) })
+	return out
 }
